@@ -49,6 +49,7 @@ func runC06(c *Ctx) {
 	c.c06WritersReplace()
 	c.c06Overlap()
 	c.c06MoveKeepsWhatStays()
+	c.c06MoveGuards()
 }
 
 // c06Overlap: "a copy never changes its source, also when source and destination overlap" / "a call terminates".
@@ -890,4 +891,142 @@ func c06ComparesWithResolution(g *ssa.Function) bool {
 		}
 	})
 	return found
+}
+
+// c06MoveGuards (Z8–Z10): three structural facts of the move on which "a call terminates and never alters or removes
+// anything other than its destination, identically on both backends" rests.
+func (c *Ctx) c06MoveGuards() {
+	c.rule("Z8", "move: a directory source reaches the rename and the folder worker only after a containment test between source and destination", 1)
+	c.rule("Z9", "move: the raw rename of the backend is only ever tried where the destination was found not to be an existing directory", 1)
+	c.rule("Z10", "move: the folder worker removes its emptied source as a directory (non-recursive); it never deletes what it did not move", 1)
+	f := c.fn(fsPkgRel, "(*VFS).MoveWithContext")
+	mf := c.fn(fsPkgRel, "(*VFS).moveFolder")
+	if f == nil || mf == nil {
+		return
+	}
+	c.FuncsSeen[fname(f)] = true
+	c.FuncsSeen[fname(mf)] = true
+	si, di := paramIndexByName(f, "src"), paramIndexByName(f, "dest")
+	if si < 0 || di < 0 {
+		c.violate("Z8", fname(f), c.pos(f.Pos()), "MoveWithContext no longer has src/dest parameters")
+		return
+	}
+	src, dest := f.Params[si], f.Params[di]
+	var rename *ssa.Call
+	var targets []ssa.Instruction
+	var tests []ssa.Instruction
+	allInstrs(f, func(in ssa.Instruction) {
+		cl, ok := in.(*ssa.Call)
+		if !ok {
+			return
+		}
+		if cl.Call.IsInvoke() && cl.Call.Method.Name() == "Rename" {
+			rename = cl
+			targets = append(targets, cl)
+		}
+		if g := staticCallee(&cl.Call); g == mf {
+			targets = append(targets, cl)
+		}
+		n := calleeFull(&cl.Call)
+		low := strings.ToLower(n)
+		if n == "strings.HasPrefix" || n == "path/filepath.Rel" || strings.Contains(low, "subpath") || strings.Contains(low, "within") || strings.Contains(low, "inside") || strings.Contains(low, "contains") {
+			hs, hd := false, false
+			for _, a := range cl.Call.Args {
+				if operandReaches(a, src, 8) {
+					hs = true
+				}
+				if operandReaches(a, dest, 8) {
+					hd = true
+				}
+			}
+			if hs && hd {
+				tests = append(tests, cl)
+			}
+		}
+	})
+	isDirOf := func(v ssa.Value, p *ssa.Parameter) bool {
+		ex, ok := v.(*ssa.Extract)
+		if !ok || ex.Index != 0 {
+			return false
+		}
+		ic, ok := ex.Tuple.(*ssa.Call)
+		if !ok {
+			return false
+		}
+		name := ""
+		if ic.Call.IsInvoke() {
+			name = ic.Call.Method.Name()
+		} else if g := staticCallee(&ic.Call); g != nil {
+			name = g.Name()
+		}
+		if name != "IsDir" || len(ic.Call.Args) == 0 {
+			return false
+		}
+		return resolveValue(ic.Call.Args[len(ic.Call.Args)-1]) == ssa.Value(p)
+	}
+	// Z8
+	{
+		isTest := func(i ssa.Instruction) bool {
+			for _, t := range tests {
+				if t == i {
+					return true
+				}
+			}
+			return false
+		}
+		bad := ""
+		for _, t := range targets {
+			t := t
+			skip := pathPruned(f, nil, isTest, func(i ssa.Instruction) bool { return i == t }, func(b *ssa.BasicBlock, k int) bool {
+				ifi, ok := b.Instrs[len(b.Instrs)-1].(*ssa.If)
+				if !ok {
+					return false
+				}
+				v, ts := boolTest(ifi)
+				return isDirOf(v, src) && k == 1-ts // the side where the source is not a directory
+			})
+			if skip != nil {
+				bad = c.ipos(t)
+			}
+		}
+		c.check(len(tests) > 0 && len(targets) > 0 && bad == "", "Z8", fname(f)+"/destination-inside-source", c.pos(f.Pos()), "containment of the destination in the source is tested before the rename and the folder worker",
+			"a directory source reaches "+bad+" without any containment test between source and destination: Move(\"a\", \"a/b\") creates a/b, lists a, moves a/b into a/b/b and so on — until the path is too long on the OS, leaving thousands of nested directories; the in-memory backend reports success")
+	}
+	// Z9
+	if rename == nil {
+		c.ok("Z9", fname(f)+"/rename", c.pos(f.Pos()), "no raw rename in this function")
+	} else {
+		good := onBoolSide(rename, false, func(v ssa.Value) bool { return isDirOf(v, dest) })
+		c.check(good, "Z9", fname(f)+"/rename", c.ipos(rename), "renamed only where the destination is not an existing directory",
+			"the backend's Rename is tried although the destination may be an existing directory: the OS refuses (and the fall-back moves into the directory) but the in-memory backend replaces the directory by the source — Move(f, d) turns d into a file and orphans what d contained")
+	}
+	// Z10
+	{
+		msi := paramIndexByName(mf, "src")
+		bad, n := "", 0
+		allInstrs(mf, func(in ssa.Instruction) {
+			cl, ok := in.(*ssa.Call)
+			if !ok || msi < 0 {
+				return
+			}
+			name := ""
+			if cl.Call.IsInvoke() {
+				name = cl.Call.Method.Name()
+			} else if g := staticCallee(&cl.Call); g != nil {
+				name = g.Name()
+			}
+			if !strings.HasPrefix(name, "Remove") && name != "Rm" && !strings.HasPrefix(name, "CleanDir") {
+				return
+			}
+			if len(cl.Call.Args) == 0 || resolveValue(cl.Call.Args[len(cl.Call.Args)-1]) != ssa.Value(mf.Params[msi]) {
+				return
+			}
+			n++
+			if !(cl.Call.IsInvoke() && name == "Remove") {
+				bad = c.ipos(cl) + " (" + name + ")"
+			}
+		})
+		c.check(n > 0 && bad == "", "Z10", fname(mf)+"/source-removed-as-directory", c.pos(mf.Pos()), "the source is removed with the backend's Remove (fails if anything is left)",
+			"the source folder is removed recursively at "+bad+": an entry whose move was a no-op (d/sub/sub when d/sub is moved into d: it already is where it was asked to go) is deleted with it and the move reports success")
+	}
 }
